@@ -105,6 +105,9 @@ def write_errors_rule(ck, P):
                 continue
             if n.get("dk", "").startswith("Ctor") or "m" in n or any("m" in p_ and not p_.get("um") for p_ in parents[-3:]):
                 continue          # Ok(..)/Err(..) constructors and macro-generated calls (ensure!, bail!, format!)
+            mac = next((p_ for p_ in reversed(parents) if "m" in p_ and p_.get("src")), None)
+            if mac is not None and mac["src"].lstrip().startswith(("log::", "trace!", "debug!", "info!", "warn!", "error!", "format!", "println!", "eprintln!", "write!", "writeln!")):
+                continue          # a value that is only printed
             sites += 1
             par = [p for p in parents if p.get("k") not in ("await",)]
             p1 = par[-1] if par else {}
